@@ -55,6 +55,8 @@ def _known():
 
 
 def _match(finding, result):
+    if "obligations" in finding:
+        return result["id"] in finding["obligations"]
     pat = finding["obligation"]
     if pat.endswith("*"):
         return result["id"].startswith(pat[:-1])
@@ -198,8 +200,11 @@ def main(argv=None):
         else:
             lines.append(f"VIOLATION property={prop} replay={rel} obligation={r['id']} no-failing-input-found")
 
+    shown = {}
     for k, r in knowns:
-        print(f"KNOWN-FINDING: property={prop} {r['id']} {k.get('what', '')}")
+        shown.setdefault(k.get("id") or r["id"], (k, []))[1].append(r["id"])
+    for key, (k, ids) in shown.items():
+        print(f"KNOWN-FINDING: property={prop} {key} [{len(ids)} obligation(s), e.g. {ids[0]}] {k.get('what', '')}")
     for r in unconfirmed:
         violations.remove(r)
         r["detail"] = "counter-model did not reproduce on the real code (contract or encoding suspect): " + str(r.get("detail"))
